@@ -1,9 +1,11 @@
 (* C20 part B - RefCountable / IntrusiveSharedPtr: refCount_ = number of holders, the option is destroyed exactly
-   when the last holder lets go.  The invariant is stated over (opts, rerr, all) where `all` lists every pointer that
-   currently accounts for one reference: the client's variables, the containers' elements and - inside one
-   operation - the temporaries / the references that addRef() has already counted. *)
+   when the last holder lets go - as long as the number of simultaneous holders of one option stays inside the range of
+   the counter's declared type (refcount_bound, generated from refcountable.h).  The invariant is stated over
+   (opts, rerr, all) where `all` lists every pointer that currently accounts for one reference: the client's variables,
+   the containers' elements, the handle pool and - inside one operation - the temporaries / the references that addRef()
+   has already counted. *)
 Require Import V.Lib.Base V.Gen.Consts_C20 V.C20.Model V.C20.Lists.
-Require Import Permutation.
+Require Import Permutation NArith Nnat.
 Local Open Scope Z_scope.
 
 Definition cnt (o : nat) (l : list nat) : Z := Z.of_nat (count_occ Nat.eq_dec l o).
@@ -13,11 +15,42 @@ Definition refs (s : rst) : list nat := flat_map optl (psl s) ++ flat_map (fun c
 Lemma refs_eq s s' : psl s' = psl s -> conts s' = conts s -> refs s' = refs s.
 Proof. intros A B. unfold refs. now rewrite A, B. Qed.
 
+(* ---------- the range of the counter (facts about the generated constants; each breaks when a type is too narrow to
+   count even two holders or has no room for 0) ---------- *)
+Lemma bound_ge_2 : 2 <= refcount_bound. Proof. vm_compute. discriminate. Qed.
+Lemma bound_le_max : refcount_bound <= refcount_max. Proof. vm_compute. discriminate. Qed.
+Lemma bound_le_rel : refcount_bound <= refcount_rel_max. Proof. vm_compute. discriminate. Qed.
+Lemma bound_le_rc : refcount_bound <= refcount_rc_max. Proof. vm_compute. discriminate. Qed.
+Lemma bound_le_cnt : refcount_bound <= refcount_cnt_max. Proof. vm_compute. discriminate. Qed.
+Lemma min_le_0 : refcount_min <= 0. Proof. vm_compute. discriminate. Qed.
+Lemma rel_min_le_0 : refcount_rel_min <= 0. Proof. vm_compute. discriminate. Qed.
+Lemma rc_min_le_0 : refcount_rc_min <= 0. Proof. vm_compute. discriminate. Qed.
+Lemma cnt_min_le_0 : refcount_cnt_min <= 0. Proof. vm_compute. discriminate. Qed.
+
+Lemma conv_id lo hi v : lo <= v <= hi -> conv lo hi v = v.
+Proof.
+  intros Hv. unfold conv, in_range.
+  destruct (Z.leb_spec lo v); [|lia]. destruct (Z.leb_spec v hi); [|lia]. reflexivity.
+Qed.
+
+(* every count from 0 to refcount_bound is stored, tested and reported exactly: nothing wraps, nothing is undefined *)
+Lemma rc_exact v : 0 <= v <= refcount_bound ->
+  rc_store v = (v, false) /\ rc_rel v = v /\ rc_obs v = v /\ rc_cnt v = v.
+Proof.
+  intros Hv.
+  pose proof bound_le_max. pose proof bound_le_rel. pose proof bound_le_rc. pose proof bound_le_cnt.
+  pose proof min_le_0. pose proof rel_min_le_0. pose proof rc_min_le_0. pose proof cnt_min_le_0.
+  assert (E : in_range refcount_min refcount_max v = true).
+  { unfold in_range. apply andb_true_iff. split; apply Z.leb_le; lia. }
+  unfold rc_store, rc_rel, rc_cnt, rc_obs. rewrite E, !conv_id by lia.
+  split; [destruct refcount_overflow_undefined; reflexivity|repeat split].
+Qed.
+
 Definition RI (os : list opt) (e : bool) (all : list nat) : Prop :=
   e = false /\
   (forall o, In o all -> (o < length os)%nat) /\
   (forall o x, nth_error os o = Some x ->
-     (o_dc x = 0 /\ o_rc x = cnt o all /\ 1 <= o_rc x) \/ (o_dc x = 1 /\ o_rc x = 0 /\ cnt o all = 0)).
+     (o_dc x = 0 /\ o_rc x = cnt o all /\ 1 <= o_rc x <= refcount_bound) \/ (o_dc x = 1 /\ o_rc x = 0 /\ cnt o all = 0)).
 
 Lemma cnt_perm o l l' : Permutation l l' -> cnt o l = cnt o l'.
 Proof. intros HP. unfold cnt. f_equal. now apply Permutation_count_occ. Qed.
@@ -48,15 +81,15 @@ Proof.
   intros Hi. destruct (Nat.eqb_spec j i) as [->|Hn]; [now apply nth_error_upd_eq|]. apply nth_error_upd_neq; congruence.
 Qed.
 
-(* addRef on an option that somebody already holds *)
+(* addRef on an option that somebody already holds and whose count has room for one more *)
 Lemma RI_add_ref s all o :
-  RI (opts s) (rerr s) all -> In o all ->
+  RI (opts s) (rerr s) all -> In o all -> cnt o all < refcount_bound ->
   RI (opts (add_ref o s)) (rerr (add_ref o s)) (o :: all) /\ psl (add_ref o s) = psl s /\ conts (add_ref o s) = conts s.
 Proof.
-  intros (A & B & C) Hin. unfold add_ref.
+  intros (A & B & C) Hin Hb. unfold add_ref.
   pose proof (B o Hin) as Hr. destruct (nth_error (opts s) o) as [x|] eqn:Hn; [|apply nth_error_None in Hn; lia].
   destruct (C o x Hn) as [(D0 & Drc & D1)|(D1 & D2 & D3)].
-  - rewrite D0. simpl. repeat split; auto.
+  - destruct (rc_exact (o_rc x + 1) ltac:(lia)) as (E & _). rewrite E, D0. simpl. repeat split; auto.
     + simpl. rewrite upd_length. intros o' [<-|Ho]; auto.
     + intros o' x' Hn'. cbn [opts r_set_opts] in Hn'. rewrite nth_error_upd_cases' in Hn' by auto. rewrite cnt_cons.
       destruct (Nat.eqb_spec o' o) as [->|Hne].
@@ -73,8 +106,9 @@ Proof.
   intros (A & B & C). unfold release.
   pose proof (B o (or_introl eq_refl)) as Hr. destruct (nth_error (opts s) o) as [x|] eqn:Hn; [|apply nth_error_None in Hn; lia].
   destruct (C o x Hn) as [(D0 & Drc & D1)|(D1 & D2 & D3)].
-  - rewrite D0. simpl. rewrite cnt_cons, Nat.eqb_refl in Drc.
-    assert (G : forall y, (o_dc y = 0 /\ o_rc y = cnt o all /\ 1 <= o_rc y) \/ (o_dc y = 1 /\ o_rc y = 0 /\ cnt o all = 0) ->
+  - destruct (rc_exact (o_rc x - 1) ltac:(lia)) as (E & E' & _). rewrite E, E', D0. simpl.
+    rewrite cnt_cons, Nat.eqb_refl in Drc.
+    assert (G : forall y, (o_dc y = 0 /\ o_rc y = cnt o all /\ 1 <= o_rc y <= refcount_bound) \/ (o_dc y = 1 /\ o_rc y = 0 /\ cnt o all = 0) ->
                 RI (upd o y (opts s)) (rerr s) all).
     { intros y Hy. repeat split; auto.
       - rewrite upd_length. intros o' Ho. apply B. now right.
@@ -94,9 +128,9 @@ Lemma RI_release_o s all p :
 Proof. destruct p as [o|]; simpl; [apply RI_release|auto]. Qed.
 
 Lemma RI_add_ref_o s all p :
-  RI (opts s) (rerr s) all -> (forall o, p = Some o -> In o all) ->
+  RI (opts s) (rerr s) all -> (forall o, p = Some o -> In o all /\ cnt o all < refcount_bound) ->
   RI (opts (add_ref_o p s)) (rerr (add_ref_o p s)) (optl p ++ all) /\ psl (add_ref_o p s) = psl s /\ conts (add_ref_o p s) = conts s.
-Proof. destruct p as [o|]; simpl; [intros; apply RI_add_ref; auto|auto]. Qed.
+Proof. destruct p as [o|]; simpl; [intros HR Hp; destruct (Hp o eq_refl); apply RI_add_ref; auto|auto]. Qed.
 
 Lemma RI_release_list s all l :
   RI (opts s) (rerr s) (l ++ all) ->
@@ -135,15 +169,70 @@ Proof.
       assert (cnt (length os) all = 0).
       { unfold cnt. destruct (count_occ Nat.eq_dec all (length os)) eqn:E; auto.
         assert (In (length os) all) by (apply (count_occ_In Nat.eq_dec); lia). specialize (B _ H). lia. }
-      left. repeat split; auto; lia.
+      pose proof bound_ge_2. left. repeat split; auto; lia.
+Qed.
+
+(* ---------- counting ---------- *)
+Lemma cnt_app o l l' : cnt o (l ++ l') = cnt o l + cnt o l'.
+Proof. unfold cnt. rewrite count_occ_app. lia. Qed.
+
+Lemma cnt_fresh n all : (forall o, In o all -> (o < n)%nat) -> cnt n all = 0.
+Proof.
+  intros B. unfold cnt. destruct (count_occ Nat.eq_dec all n) eqn:E; auto.
+  assert (In n all) by (apply (count_occ_In Nat.eq_dec); lia). specialize (B _ H). lia.
+Qed.
+
+Lemma repeatN_succ o k : repeatN o (N.succ k) = o :: repeatN o k.
+Proof. unfold repeatN. now rewrite N.iter_succ. Qed.
+
+Lemma repeatN_repeat o k : repeatN o k = repeat o (N.to_nat k).
+Proof.
+  induction k using N.peano_ind; [reflexivity|]. rewrite repeatN_succ, N2Nat.inj_succ. simpl. now rewrite IHk.
+Qed.
+
+Lemma cnt_repeatN o k : cnt o (repeatN o k) = Z.of_N k.
+Proof.
+  induction k using N.peano_ind; [reflexivity|]. rewrite repeatN_succ, cnt_cons, Nat.eqb_refl, IHk. lia.
+Qed.
+
+Lemma cnt_repeatN_other o o' k : o' <> o -> cnt o (repeatN o' k) = 0.
+Proof.
+  intros Hn. induction k using N.peano_ind; [reflexivity|]. rewrite repeatN_succ, cnt_cons, IHk.
+  destruct (Nat.eqb_spec o' o); [contradiction|]. reflexivity.
+Qed.
+
+Lemma lenZ_length {A} (l : list A) : lenZ l = Z.of_nat (length l).
+Proof.
+  unfold lenZ. assert (G : forall a, fold_left (fun (a : Z) (_ : A) => a + 1) l a = a + Z.of_nat (length l)).
+  { induction l as [|x l IH]; intros a; simpl length; [simpl; lia|]. cbn [fold_left]. rewrite IH. lia. }
+  now rewrite G.
+Qed.
+
+(* k times addRef, as long as the count has room for k more *)
+Lemma RI_add_refN s all o k :
+  RI (opts s) (rerr s) all -> In o all -> cnt o all + Z.of_N k <= refcount_bound ->
+  RI (opts (N.iter k (add_ref o) s)) (rerr (N.iter k (add_ref o) s)) (repeatN o k ++ all) /\
+  psl (N.iter k (add_ref o) s) = psl s /\ conts (N.iter k (add_ref o) s) = conts s.
+Proof.
+  intros HR Hin. induction k using N.peano_ind; intros Hb; [simpl; auto|].
+  rewrite N.iter_succ, repeatN_succ. destruct IHk as (R1 & P1 & C1); [lia|].
+  destruct (RI_add_ref (N.iter k (add_ref o) s) (repeatN o k ++ all) o R1) as (R2 & P2 & C2).
+  - apply in_or_app. now right.
+  - rewrite cnt_app, cnt_repeatN. lia.
+  - simpl. split; [exact R2|]. split; congruence.
 Qed.
 
 (* ---------- the state invariant ---------- *)
+Definition holders (s : rst) (o : nat) : Z := cnt o (refs s).
+(* every option has room for one more reference: operator= counts the new reference before it releases the old one,
+   a `new Option` is held by a temporary handle and the variable it is assigned to *)
+Definition within (s : rst) : Prop := forall o, holders s o < refcount_bound.
+
 Section B.
 Variables S_ C_ : nat.
 
 Definition RGood (s : rst) : Prop :=
-  RI (opts s) (rerr s) (refs s) /\ length (psl s) = S_ /\ length (conts s) = C_.
+  RI (opts s) (rerr s) (refs s) /\ length (psl s) = S_ /\ length (conts s) = S C_.
 
 Lemma okp_range i : okp S_ i = true -> (Z.to_nat i < S_)%nat.
 Proof. unfold okp. intros Hk. apply andb_true_iff in Hk. destruct Hk as [A B]. apply Z.leb_le in A. apply Z.ltb_lt in B. lia. Qed.
@@ -177,14 +266,86 @@ Qed.
 
 Ltac rs := cbn [opts psl conts rerr r_set_opts r_set_psl r_set_conts] in *.
 
-Lemma RGood_step s o : RGood s -> RGood (rstep S_ C_ s o).
+(* a container (or the pool) takes the handles l ++ / ++ l that addRef has already counted *)
+Lemma RGood_conts_add s s' c l new :
+  RGood s -> (c < S C_)%nat ->
+  RI (opts s') (rerr s') (l ++ refs s) -> psl s' = psl s -> conts s' = conts s ->
+  Permutation new (l ++ nth c (conts s) []) ->
+  RGood (r_set_conts (upd c new (conts s)) s').
 Proof.
-  intros HG. pose proof HG as (HR & HP & HC). destruct o; cbn [rstep].
+  intros (HR & HP & HC) Hc R1 P1 C1 Pn.
+  split; [|split]; rs; [|congruence|rewrite upd_length; congruence].
+  eapply RI_perm; [|exact R1].
+  assert (Hc' : (c < length (conts s))%nat) by lia.
+  pose proof (refs_conts_upd s c new Hc') as P.
+  assert (E : refs (r_set_conts (upd c new (conts s)) s') = refs (r_set_conts (upd c new (conts s)) s)).
+  { unfold refs; rs. now rewrite P1. }
+  rewrite E. eapply Permutation_app_inv_l with (l := nth c (conts s) []).
+  symmetry. etransitivity; [exact P|]. rewrite Pn.
+  rewrite app_assoc. apply Permutation_app_tail. apply Permutation_app_comm.
+Qed.
+
+Lemma holders_conts_add s s' c new o :
+  (c < length (conts s))%nat -> psl s' = psl s -> conts s' = conts s ->
+  holders (r_set_conts (upd c new (conts s)) s') o = holders s o - cnt o (nth c (conts s) []) + cnt o new.
+Proof.
+  intros Hc P1 C1. unfold holders.
+  pose proof (refs_conts_upd s c new Hc) as P. apply (cnt_perm o) in P. rewrite !cnt_app in P.
+  assert (E : refs (r_set_conts (upd c new (conts s)) s') = refs (r_set_conts (upd c new (conts s)) s)).
+  { unfold refs; rs. now rewrite P1. }
+  rewrite E. lia.
+Qed.
+
+Lemma RGood_push_ctx s c o :
+  RGood s -> (c < C_)%nat -> In o (refs s) -> within s -> within (push_ctx c o s) -> RGood (push_ctx c o s).
+Proof.
+  intros HG Hc Hin W W'. pose proof HG as (HR & HP & HC). unfold push_ctx in *.
+  set (cur := nth c (conts s) []) in *.
+  destruct (existsb (Nat.eqb o) cur); [exact HG|].
+  assert (Hc' : (c < length (conts s))%nat) by lia.
+  destruct (RI_add_ref s _ o HR Hin (W o)) as (R1 & P1 & C1).
+  assert (Hb : cnt o (o :: refs s) < refcount_bound).
+  { specialize (W' o). rewrite (holders_conts_add s (add_ref o (add_ref o s)) c (cur ++ [o; o]) o Hc') in W'.
+    - fold cur in W'. rewrite cnt_app, !cnt_cons, Nat.eqb_refl in W'. unfold holders in W'.
+      rewrite cnt_cons, Nat.eqb_refl. change (cnt o []) with 0 in W'. lia.
+    - unfold add_ref at 1. destruct (nth_error (opts (add_ref o s)) o) as [x|]; [destruct (rc_store (o_rc x + 1)); destruct (_ && _)|]; rs; exact P1.
+    - unfold add_ref at 1. destruct (nth_error (opts (add_ref o s)) o) as [x|]; [destruct (rc_store (o_rc x + 1)); destruct (_ && _)|]; rs; exact C1. }
+  destruct (RI_add_ref (add_ref o s) _ o R1 (or_introl eq_refl) Hb) as (R2 & P2 & C2).
+  apply (RGood_conts_add s (add_ref o (add_ref o s)) c [o; o]); auto; try congruence; try lia.
+  fold cur. apply Permutation_app_comm.
+Qed.
+
+Lemma RGood_pop1 s : RGood s -> RGood (pop1 C_ s).
+Proof.
+  intros HG. pose proof HG as (HR & HP & HC). unfold pop1.
+  destruct (nth C_ (conts s) []) as [|o r] eqn:Hcur; [exact HG|].
+  assert (Hc : (C_ < length (conts s))%nat) by lia.
+  set (s0 := r_set_conts (upd C_ r (conts s)) s).
+  assert (R0 : RI (opts s0) (rerr s0) (o :: refs s0)).
+  { eapply RI_perm; [|exact HR]. pose proof (refs_conts_upd s C_ r Hc) as P. rewrite Hcur in P.
+    apply Permutation_sym. eapply Permutation_app_inv_l with (l := r).
+    rewrite <- P. simpl. rewrite Permutation_middle. reflexivity. }
+  destruct (RI_release s0 _ o R0) as (R1 & P1 & C1).
+  split; [rewrite (refs_eq _ _ P1 C1); exact R1|split].
+  - rewrite P1. unfold s0; rs. exact HP.
+  - rewrite C1. unfold s0; rs. rewrite upd_length. exact HC.
+Qed.
+
+Lemma RGood_popN s k : RGood s -> RGood (N.iter k (pop1 C_) s).
+Proof.
+  intros HG. induction k using N.peano_ind; [exact HG|]. rewrite N.iter_succ. now apply RGood_pop1.
+Qed.
+
+Lemma RGood_step s o : RGood s -> within s -> within (rstep S_ C_ s o) -> RGood (rstep S_ C_ s o).
+Proof.
+  intros HG W W'. pose proof HG as (HR & HP & HC). destruct o; cbn [rstep] in *.
   - (* RNew *)
     destruct (okp S_ i) eqn:E; [|exact HG]. apply okp_range in E.
     set (n := length (opts s)). set (s1 := r_set_opts (opts s ++ [mkO rc_init 0]) s).
     assert (R1 : RI (opts s1) (rerr s1) (n :: refs s)) by (apply RI_new; exact HR).
-    destruct (RI_add_ref s1 _ n R1 (or_introl eq_refl)) as (R2 & P2 & C2).
+    assert (Hn1 : cnt n (n :: refs s) < refcount_bound).
+    { rewrite cnt_cons, Nat.eqb_refl. destruct HR as (_ & B & _). rewrite (cnt_fresh n (refs s) B). pose proof bound_ge_2. lia. }
+    destruct (RI_add_ref s1 _ n R1 (or_introl eq_refl) Hn1) as (R2 & P2 & C2).
     set (s2 := add_ref n s1) in *.
     assert (Hi : (Z.to_nat i < length (psl s))%nat) by lia.
     assert (R2' : RI (opts s2) (rerr s2) (optl (pslot s2 (Z.to_nat i)) ++ (n :: n :: refs (r_set_psl (upd (Z.to_nat i) None (psl s)) s)))).
@@ -206,8 +367,8 @@ Proof.
   - (* RAssign *)
     destruct (okp S_ i && okp S_ j)%bool eqn:E; [|exact HG]. apply andb_true_iff in E. destruct E as [E1 E2].
     apply okp_range in E1. apply okp_range in E2.
-    set (pj := pslot s (Z.to_nat j)).
-    destruct (RI_add_ref_o s _ pj HR) as (R1 & P1 & C1). { intros o Ho. eapply pslot_in_refs; eauto. }
+    set (pj := pslot s (Z.to_nat j)) in *.
+    destruct (RI_add_ref_o s _ pj HR) as (R1 & P1 & C1). { intros o Ho. split; [eapply pslot_in_refs; eauto|apply W]. }
     set (s1 := add_ref_o pj s) in *.
     assert (Hi : (Z.to_nat i < length (psl s))%nat) by lia.
     assert (R1' : RI (opts s1) (rerr s1) (optl (pslot s1 (Z.to_nat i)) ++ (optl pj ++ refs (r_set_psl (upd (Z.to_nat i) None (psl s)) s)))).
@@ -225,8 +386,8 @@ Proof.
   - (* RCopyCons : same sequence of addRef / release *)
     destruct (okp S_ i && okp S_ j)%bool eqn:E; [|exact HG]. apply andb_true_iff in E. destruct E as [E1 E2].
     apply okp_range in E1. apply okp_range in E2.
-    set (pj := pslot s (Z.to_nat j)).
-    destruct (RI_add_ref_o s _ pj HR) as (R1 & P1 & C1). { intros o Ho. eapply pslot_in_refs; eauto. }
+    set (pj := pslot s (Z.to_nat j)) in *.
+    destruct (RI_add_ref_o s _ pj HR) as (R1 & P1 & C1). { intros o Ho. split; [eapply pslot_in_refs; eauto|apply W]. }
     set (s1 := add_ref_o pj s) in *.
     assert (Hi : (Z.to_nat i < length (psl s))%nat) by lia.
     assert (R1' : RI (opts s1) (rerr s1) (optl (pslot s1 (Z.to_nat i)) ++ (optl pj ++ refs (r_set_psl (upd (Z.to_nat i) None (psl s)) s)))).
@@ -275,23 +436,11 @@ Proof.
     apply okc_range in E1. apply okp_range in E2.
     destruct (pslot s (Z.to_nat i)) as [o|] eqn:Hp; [|exact HG].
     pose proof (pslot_in_refs s _ _ Hp) as Hin.
-    assert (Hc : (Z.to_nat c < length (conts s))%nat) by lia.
-    set (cur := nth (Z.to_nat c) (conts s) []).
     destruct (ckind c =? 2).
-    + destruct (existsb (Nat.eqb o) cur); [exact HG|].
-      destruct (RI_add_ref s _ o HR Hin) as (R1 & P1 & C1).
-      destruct (RI_add_ref (add_ref o s) _ o R1 (or_introl eq_refl)) as (R2 & P2 & C2).
-      split; [|split]; rs; [|congruence|rewrite upd_length; exact HC].
-      eapply RI_perm; [|exact R2].
-      pose proof (refs_conts_upd s (Z.to_nat c) (cur ++ [o; o]) Hc) as P. fold cur in P.
-      eapply Permutation_app_inv_l with (l := cur).
-      unfold refs in *; rs. rewrite P2, P1. rewrite P. rewrite <- app_assoc. apply Permutation_app_head. simpl. reflexivity.
-    + destruct (RI_add_ref s _ o HR Hin) as (R1 & P1 & C1).
-      split; [|split]; rs; [|congruence|rewrite upd_length; exact HC].
-      eapply RI_perm; [|exact R1].
-      pose proof (refs_conts_upd s (Z.to_nat c) (cur ++ [o]) Hc) as P. fold cur in P.
-      eapply Permutation_app_inv_l with (l := cur).
-      unfold refs in *; rs. rewrite P1. rewrite P. rewrite <- app_assoc. apply Permutation_app_head. simpl. reflexivity.
+    + now apply RGood_push_ctx.
+    + destruct (RI_add_ref s _ o HR Hin (W o)) as (R1 & P1 & C1).
+      apply (RGood_conts_add s (add_ref o s) (Z.to_nat c) [o]); auto; try lia.
+      apply Permutation_app_comm.
   - (* RDrop *)
     destruct (okc C_ c) eqn:E; [|exact HG]. apply okc_range in E.
     assert (Hc : (Z.to_nat c < length (conts s))%nat) by lia.
@@ -303,12 +452,46 @@ Proof.
     + unfold refs in *; rs. now rewrite P1.
     + rewrite P1. exact HP.
     + rewrite upd_length. exact HC.
+  - (* RPushN *)
+    destruct ((okc C_ c || (c =? Z.of_nat C_)) && okp S_ i && (0 <=? k) && (k <=? BULK_MAX))%bool eqn:E; [|exact HG].
+    apply andb_true_iff in E. destruct E as [E E4]. apply andb_true_iff in E. destruct E as [E E3].
+    apply andb_true_iff in E. destruct E as [E1 E2]. apply okp_range in E2. apply Z.leb_le in E3.
+    assert (Hc : (Z.to_nat c < S C_)%nat).
+    { apply orb_true_iff in E1. destruct E1 as [E1|E1]; [apply okc_range in E1; lia|apply Z.eqb_eq in E1; lia]. }
+    destruct (pslot s (Z.to_nat i)) as [o|] eqn:Hp; [|exact HG].
+    pose proof (pslot_in_refs s _ _ Hp) as Hin.
+    assert (Hc' : (Z.to_nat c < length (conts s))%nat) by lia.
+    set (cur := nth (Z.to_nat c) (conts s) []) in *.
+    assert (HN : forall new, cnt o new = cnt o cur + Z.of_N (Z.to_N k) ->
+                 within (r_set_conts (upd (Z.to_nat c) new (conts s)) (N.iter (Z.to_N k) (add_ref o) s)) ->
+                 cnt o (refs s) + Z.of_N (Z.to_N k) <= refcount_bound).
+    { intros new Hnew Wn. specialize (Wn o).
+      assert (Hpc : psl (N.iter (Z.to_N k) (add_ref o) s) = psl s /\ conts (N.iter (Z.to_N k) (add_ref o) s) = conts s).
+      { generalize (Z.to_N k) as m. induction m using N.peano_ind; [auto|]. rewrite N.iter_succ. destruct IHm as [Pm Cm].
+        unfold add_ref. destruct (nth_error _ o) as [x|]; [destruct (rc_store (o_rc x + 1)); destruct (_ && _)|]; rs; auto. }
+      destruct Hpc as [Pm Cm].
+      rewrite (holders_conts_add s (N.iter (Z.to_N k) (add_ref o) s) (Z.to_nat c) new o Hc' Pm Cm) in Wn.
+      fold cur in Wn. unfold holders in Wn. lia. }
+    destruct (c =? Z.of_nat C_) eqn:Ec.
+    + (* the pool *)
+      pose proof (HN (repeatN o (Z.to_N k) ++ cur) ltac:(rewrite cnt_app, cnt_repeatN; lia) W') as Hb.
+      destruct (RI_add_refN s _ o (Z.to_N k) HR Hin Hb) as (R1 & P1 & C1).
+      apply (RGood_conts_add s _ (Z.to_nat c) (repeatN o (Z.to_N k))); auto.
+    + destruct (ckind c =? 2).
+      * destruct (k =? 0); [exact HG|]. apply orb_true_iff in E1. destruct E1 as [E1|E1]; [|congruence].
+        apply okc_range in E1. now apply RGood_push_ctx.
+      * pose proof (HN (cur ++ repeatN o (Z.to_N k)) ltac:(rewrite cnt_app, cnt_repeatN; lia) W') as Hb.
+        destruct (RI_add_refN s _ o (Z.to_N k) HR Hin Hb) as (R1 & P1 & C1).
+          apply (RGood_conts_add s _ (Z.to_nat c) (repeatN o (Z.to_N k))); auto.
+        fold cur. apply Permutation_app_comm.
+  - (* RPopN *)
+    destruct ((0 <=? k) && (k <=? BULK_MAX))%bool; [|exact HG]. now apply RGood_popN.
 Qed.
 
 Lemma RGood_init : RGood (rinit S_ C_).
 Proof.
   unfold rinit. split; [|split]; rs; try apply repeat_length.
-  assert (E : refs (mkR [] (repeat None S_) (repeat [] C_) false) = []).
+  assert (E : refs (mkR [] (repeat None S_) (repeat [] (S C_)) false) = []).
   { unfold refs; rs. assert (A : forall k, flat_map optl (repeat None k) = []) by (induction k; simpl; auto).
     assert (B : forall k, flat_map (fun c : list nat => c) (repeat [] k) = []) by (induction k; simpl; auto).
     now rewrite A, B. }
@@ -317,10 +500,16 @@ Proof.
   all: try (intros Hn; destruct o; discriminate).
 Qed.
 
-Lemma RGood_run s ops : RGood s -> RGood (snd (rrun_ops S_ C_ s ops)).
+(* the bound holds in every state of the history (between two operations) *)
+Fixpoint hist_within (s : rst) (ops : list rop) : Prop :=
+  within s /\ match ops with [] => True | o :: r => hist_within (rstep S_ C_ s o) r end.
+
+Lemma RGood_run s ops : RGood s -> hist_within s ops -> RGood (snd (rrun_ops S_ C_ s ops)).
 Proof.
-  revert s; induction ops as [|o ops IH]; intros s HG; simpl; auto.
-  specialize (IH (rstep S_ C_ s o) (RGood_step s o HG)). destruct (rrun_ops S_ C_ (rstep S_ C_ s o) ops). exact IH.
+  revert s; induction ops as [|o ops IH]; intros s HG HW; simpl; auto.
+  destruct HW as [W HW].
+  assert (W' : within (rstep S_ C_ s o)) by (destruct ops; apply HW).
+  specialize (IH (rstep S_ C_ s o) (RGood_step s o HG W W') HW). destruct (rrun_ops S_ C_ (rstep S_ C_ s o) ops). exact IH.
 Qed.
 
 Lemma concat_flat (l : list (list nat)) : concat l = flat_map (fun c => c) l.
@@ -338,22 +527,50 @@ Qed.
 End B.
 
 (* ---------- the whole-history statement ---------- *)
-Definition holders (s : rst) (o : nat) : Z := cnt o (refs s).
-
 Theorem refcount_main (S_ C_ : nat) (ops : list rop) :
+  hist_within S_ C_ (rinit S_ C_) ops ->
   let s := snd (rrun_ops S_ C_ (rinit S_ C_) ops) in
   let f := rfinish S_ C_ s in
   rerr s = false /\
   (forall o x, nth_error (opts s) o = Some x ->
-     (o_dc x = 0 /\ o_rc x = holders s o /\ 1 <= holders s o) \/ (o_dc x = 1 /\ holders s o = 0)) /\
+     (o_dc x = 0 /\ o_rc x = holders s o /\ 1 <= holders s o <= refcount_bound) \/ (o_dc x = 1 /\ holders s o = 0)) /\
   rerr f = false /\
   (forall o x, nth_error (opts f) o = Some x -> o_dc x = 1).
 Proof.
-  intros s f.
-  assert (HG : RGood S_ C_ s) by (apply RGood_run, RGood_init).
+  intros HW s f.
+  assert (HG : RGood S_ C_ s) by (apply RGood_run; [apply RGood_init|exact HW]).
   pose proof (rfinish_spec S_ C_ s HG) as (FA & _ & FC). fold f in FA, FC.
   destruct HG as ((A & B & C) & _). repeat split; auto.
   - intros o x Hn. unfold holders. destruct (C o x Hn) as [(D0 & D1 & D2)|(D0 & D1 & D2)]; [left|right]; repeat split; auto; lia.
   - intros o x Hn. destruct (FC o x Hn) as [(D0 & D1 & D2)|(D0 & _)]; auto.
     unfold cnt in D1; simpl in D1. lia.
+Qed.
+
+(* ---------- the range is the real one (that it is large enough: C20/Range.v) ---------- *)
+(* beyond the declared type's range the counter is NOT exact (so the bound in the theorems is the real one) *)
+Lemma refcount_range_tight : rc_store (refcount_max + 1) <> (refcount_max + 1, false).
+Proof. vm_compute. discriminate. Qed.
+
+(* ---------- a decision procedure for the hypothesis (used for the non-vacuity examples) ---------- *)
+Definition withinb (s : rst) : bool :=
+  forallb (fun o => holders s o <? refcount_bound) (seq 0 (S (list_max (refs s)))).
+
+Lemma withinb_ok s : withinb s = true -> within s.
+Proof.
+  unfold withinb, within. intros Hb o. rewrite forallb_forall in Hb.
+  destruct (le_lt_dec o (list_max (refs s))) as [Hl|Hl].
+  - apply Z.ltb_lt. apply Hb. apply in_seq. lia.
+  - unfold holders, cnt. rewrite (proj1 (count_occ_not_In Nat.eq_dec (refs s) o)).
+    + pose proof bound_ge_2. simpl. lia.
+    + intros Hin. assert (F : Forall (fun k => (k <= list_max (refs s))%nat) (refs s)) by (apply list_max_le; lia).
+      rewrite Forall_forall in F. specialize (F o Hin). lia.
+Qed.
+
+Fixpoint hist_withinb (S_ C_ : nat) (s : rst) (ops : list rop) : bool :=
+  withinb s && match ops with [] => true | o :: r => hist_withinb S_ C_ (rstep S_ C_ s o) r end.
+
+Lemma hist_withinb_ok S_ C_ s ops : hist_withinb S_ C_ s ops = true -> hist_within S_ C_ s ops.
+Proof.
+  revert s; induction ops as [|o ops IH]; intros s Hb; cbn [hist_withinb hist_within] in *;
+    apply andb_true_iff in Hb; destruct Hb as [A B]; (split; [now apply withinb_ok|auto]).
 Qed.
